@@ -494,9 +494,28 @@ def impl_pairing(case):
                 fh.write("x")
         pc = ProjectConfig(_os.path.join(top, "l10n.toml"))
         pc.set_root(".")
-        pc.add_environment(**dict(case["env"]))
+        env = dict(case["env"])
+        if case.get("late_locale"):
+            env.pop("locale", None)         # ProjectFiles binds it: paths["l10n"].with_env({"locale": locale})
+        pc.add_environment(**env)
         pc.add_paths({"l10n": case["l10n"], "reference": case["ref"]})
-        pc.set_locales([case["locale"]], deep=True)
+        pc.set_locales([case["locale"]] + ([case["other_locale"]] if case.get("late_locale") else []), deep=True)
+        # calls that only LOOK at the configuration's matchers (what printing or inspecting a configuration does)
+        for w in case.get("warm") or []:
+            for key in ("l10n", "reference"):
+                m = pc.paths[0][key]
+                if w == "prefix":
+                    guarded(lambda: m.prefix)
+                elif w == "str":
+                    guarded(lambda: str(m))
+                elif w == "repr":
+                    guarded(lambda: repr(m))
+                elif w == "expand":
+                    guarded(lambda: m.pattern.expand(m.env, raise_missing=True))
+                elif w == "eq":
+                    guarded(lambda: m == pc.paths[0]["l10n"])
+            if w == "other-locale":
+                guarded(lambda: list(ProjectFiles(case["other_locale"], [pc])))
         files = ProjectFiles(case["locale"], [pc])
 
         def rel(p):
@@ -512,3 +531,133 @@ def impl_pairing(case):
         return {"listed": listed, "lookups": lookups, "reference_mode": refs}
     finally:
         shutil.rmtree(top, ignore_errors=True)
+
+
+# ------------------------------------------------------------------ round 5: histories on long-lived matcher objects
+def _snap(m):
+    """observable state of a matcher object, read from its attributes only (no method of the matcher is called):
+    pattern nodes + prefix_length, root, the entries of the env dict by key, whether a regex is cached"""
+    def val(v):
+        if isinstance(v, str):
+            return "L" + enc(v)
+        r = getattr(v, "root", None)
+        return pattern_canon(v) + ("" if r is None else "@" + enc(r))
+    env = sorted((k, val(v)) for k, v in dict.items(m.env))
+    root = m.pattern.root
+    cached = m._cached_re is not None
+    canon = (pattern_canon(m.pattern) + " ; " + ("None" if root is None else enc(root)) + " ; {" +
+             ",".join(enc(k) + "=" + v for k, v in env) + "} ; " + ("1" if cached else "0"))
+    return {"canon": canon, "pattern": pattern_canon(m.pattern), "root": root, "env": [list(kv) for kv in env], "cached": cached,
+            "regex": m._cached_re.pattern if cached else None, "env_id": id(m.env)}
+
+
+def impl_history(case):
+    """a HISTORY on one store of long-lived matcher objects (objects are numbered in the order of creation; caches are
+    never reset).  Per call: its result, the snapshot of every object afterwards and - for the calls that only look -
+    the result of the same call on objects built FRESH from the current pattern text / variables / root of the operands.
+    ops: B(spec) | P o | S o | X o | R o | Q o o2 | M o path | U o o2 path | E o root env | CT o text | CM o o2 | W o k v"""
+    from compare_locales.paths.matcher import Matcher, PatternParser
+
+    def can_match(c, v):
+        return c if c is not None else ("None" if v is None else dict_canon(v))
+
+    def can_text(c, v):
+        return c if c is not None else ("None" if v is None else enc(v))
+
+    fresh_rx = {}
+
+    def fresh_regex(spec):
+        key = repr(spec)
+        if key not in fresh_rx:
+            def f():
+                m = build_raw(spec)
+                m._cache_regex()
+                return m._cached_re.pattern
+            c, v = guarded(f)
+            fresh_rx[key] = v if c is None else None
+        return fresh_rx[key]
+
+    def call(k, op, objs):
+        """the call itself, on the given objects -> (canonical, raw)"""
+        o = objs[op["o"]] if "o" in op else None
+        if k == "P":
+            c, v = guarded(lambda: o.prefix)
+            return can_text(c, v), v
+        if k == "S":
+            c, v = guarded(lambda: str(o))
+            return can_text(c, v), v
+        if k == "X":
+            c, v = guarded(lambda: o.pattern.expand(o.env, raise_missing=True))
+            return can_text(c, v), v
+        if k == "R":
+            c, v = guarded(lambda: isinstance(repr(o), str))
+            return (c if c is not None else "ok"), v
+        if k == "Q":
+            o2 = objs[op["o2"]]
+            c, v = guarded(lambda: [bool(o == o2), bool(o != o2)])
+            return (c if c is not None else "".join("1" if x else "0" for x in v)), v
+        if k == "M":
+            c, v = guarded(lambda: o.match(op["path"]))
+            return can_match(c, v), v
+        if k == "U":
+            o2 = objs[op["o2"]]
+            c, v = guarded(lambda: o.sub(o2, op["path"]))
+            return can_text(c, v), v
+        raise ValueError(k)
+
+    def go():
+        objs, specs, tainted, steps, prev = [], [], set(), [], []
+        for op in case["ops"]:
+            k = op["op"]
+            refs = [op[x] for x in ("o", "o2") if x in op]
+            if any(r >= len(objs) for r in refs):
+                steps.append({"canon": "stuck", "stuck": True})
+                break
+            st = {}
+            if k == "B":
+                c, v = guarded(lambda: build_raw(op["spec"]))
+                if c is None:
+                    objs.append(v)
+                    specs.append(op["spec"])
+                out_c, st["out"] = (c if c is not None else "o%d" % (len(objs) - 1)), (v if c is not None else None)
+            elif k in ("E", "CT", "CM"):
+                src = objs[op["o"]]
+                if k == "E":
+                    c, v = guarded(lambda: Matcher(src, dict(op["env"]), root=op["root"]))
+                elif k == "CT":
+                    c, v = guarded(lambda: src.concat(op["text"]))
+                else:
+                    c, v = guarded(lambda: src.concat(objs[op["o2"]]))
+                if c is None:
+                    st["same_object"] = any(v is x for x in objs)
+                    objs.append(v)
+                    specs.append(op["result"])
+                    fr = guarded(lambda: _snap(build_raw(op["result"])))
+                    st["fresh_state"] = fr[1]
+                out_c, st["out"] = (c if c is not None else "o%d" % (len(objs) - 1)), (v if c is not None else None)
+            elif k == "W":
+                def w():
+                    objs[op["o"]].env[op["k"]] = PatternParser().parse(op["v"])
+                c, v = guarded(w)
+                specs[op["o"]] = op["result"]
+                if objs[op["o"]]._cached_re is not None:
+                    tainted.add(op["o"])
+                out_c, st["out"] = (c if c is not None else "ok"), v
+            else:
+                out_c, st["out"] = call(k, op, objs)
+                fobjs = {}
+                for r in refs:
+                    fobjs[r] = build_raw(specs[r])
+                st["fresh"] = call(k, op, fobjs)[1]
+                st["tainted"] = any(r in tainted for r in refs)
+            snaps = [_snap(m) for m in objs]
+            st["snap"] = snaps
+            st["cache_bad"] = [i for i, sn in enumerate(snaps)
+                               if sn["cached"] and i not in tainted and fresh_regex(specs[i]) != sn["regex"]]
+            cur = [sn["canon"] for sn in snaps]
+            st["canon"] = out_c + " ~ " + " # ".join("=" if i < len(prev) and prev[i] == c else c for i, c in enumerate(cur))
+            prev = cur
+            steps.append(st)
+        return steps
+    steps = _at(case.get("cwd"), go)
+    return {"steps": steps, "canon": " || ".join(s["canon"] for s in steps)}
